@@ -887,6 +887,97 @@ async fn wire_roundtrip_case(case: &Value) -> Value {
     }
 }
 
+
+/// C06 database part: two account event logs in one in-memory sqlite database (same `account_events` table);
+/// records have commit hashes 0x11.. with a chosen first byte (so identical events occur), then one operation on
+/// the first log; reports the tree in memory, the tree a fresh instance loads, and the other log's tree.
+async fn dblog_script(case: &Value) -> Value {
+    use sos_core::events::EventLog;
+    use sos_database::DatabaseEventLog;
+    type Log = DatabaseEventLog<AccountEvent, sos_database::Error>;
+    fn rec(c: u64, p: u64, i: i64) -> EventRecord {
+        let t = time::OffsetDateTime::from_unix_timestamp(1700000000 + i).unwrap();
+        let mut h = [0x11u8; 32];
+        h[0] = c as u8;
+        EventRecord::new(t.into(), CommitHash([0u8; 32]), CommitHash(h), vec![p as u8])
+    }
+    fn pairs(v: &Value) -> Vec<(u64, u64)> {
+        v.as_array().map(|a| a.iter().map(|x| (x[0].as_u64().unwrap(), x[1].as_u64().unwrap())).collect()).unwrap_or_default()
+    }
+    let client = sos_database::open_memory().await.unwrap();
+    let a1 = account_of(1);
+    let a2 = account_of(2);
+    let (s1, s2) = (a1.to_string(), a2.to_string());
+    client
+        .conn(move |conn| {
+            conn.execute("INSERT INTO accounts (account_id, created_at, modified_at, identifier, name) VALUES (1, '2024-01-01T00:00:00Z', '2024-01-01T00:00:00Z', ?1, 'a')", [&s1])?;
+            conn.execute("INSERT INTO accounts (account_id, created_at, modified_at, identifier, name) VALUES (2, '2024-01-01T00:00:00Z', '2024-01-01T00:00:00Z', ?1, 'b')", [&s2])?;
+            Ok(())
+        })
+        .await
+        .unwrap();
+    let mut mine = Log::new_account(client.clone(), a1).await.unwrap();
+    let mut other = Log::new_account(client.clone(), a2).await.unwrap();
+    let m = pairs(&case["mine"]);
+    let o = pairs(&case["other"]);
+    // interleave as the harness does: other, mine, other, mine ...
+    for i in 0..std::cmp::max(m.len(), o.len()) {
+        if i < o.len() {
+            other.apply_records(vec![rec(o[i].0, o[i].1, 50 + i as i64)]).await.unwrap();
+        }
+        if i < m.len() {
+            mine.apply_records(vec![rec(m[i].0, m[i].1, i as i64)]).await.unwrap();
+        }
+    }
+    let other_before = leaves_hex(other.tree());
+    let mine_before = leaves_hex(mine.tree());
+    let op = case["operation"][0].as_str().unwrap();
+    let result = match op {
+        "apply" => {
+            let recs: Vec<EventRecord> = pairs(&case["new"]).iter().enumerate().map(|(i, (c, p))| rec(*c, *p, 100 + i as i64)).collect();
+            mine.apply_records(recs).await.map(|_| ()).map_err(|e| e.to_string())
+        }
+        "rewind" => {
+            let mut h = [0x11u8; 32];
+            h[0] = case["target"].as_u64().unwrap() as u8;
+            mine.rewind(&CommitHash(h)).await.map(|_| ()).map_err(|e| e.to_string())
+        }
+        "replace" | "patch" => {
+            use sos_core::events::patch::{Diff, Patch};
+            let recs: Vec<EventRecord> = pairs(&case["new"]).iter().enumerate().map(|(i, (c, p))| rec(*c, *p, 100 + i as i64)).collect();
+            let mut tree = sos_core::commit::CommitTree::new();
+            for q in case["proof_leaves"].as_array().unwrap() {
+                let mut h = [0x11u8; 32];
+                h[0] = q.as_u64().unwrap() as u8;
+                tree.insert(h);
+            }
+            tree.commit();
+            let proof = tree.head().unwrap();
+            let patch: Patch<AccountEvent> = Patch::new(recs);
+            if op == "replace" {
+                mine.replace_all_events(&Diff::new(patch, proof, None)).await.map_err(|e| e.to_string())
+            } else {
+                match mine.patch_checked(&proof, &patch).await {
+                    Ok(sos_core::events::patch::CheckedPatch::Success(_)) => Ok(()),
+                    Ok(_) => Err("conflict".to_string()),
+                    Err(e) => Err(e.to_string()),
+                }
+            }
+        }
+        _ => mine.clear().await.map_err(|e| e.to_string()),
+    };
+    let memory = leaves_hex(mine.tree());
+    let mut fresh = Log::new_account(client.clone(), a1).await.unwrap();
+    let reload = fresh.load_tree().await.map_err(|e| e.to_string());
+    let disk = leaves_hex(fresh.tree());
+    let mut fresh_other = Log::new_account(client.clone(), a2).await.unwrap();
+    let _ = fresh_other.load_tree().await;
+    let other_after = leaves_hex(fresh_other.tree());
+    json!({"outcome": "ok", "result": result, "reload": reload, "memory": memory, "disk": disk,
+           "other_before": other_before, "other_after": other_after, "before": mine_before,
+           "tree_matches_table": memory == disk, "other_untouched": other_before == other_after})
+}
+
 static TMP_COUNTER: std::sync::atomic::AtomicUsize = std::sync::atomic::AtomicUsize::new(0);
 
 fn tmp_path(tag: &str) -> std::path::PathBuf {
@@ -952,6 +1043,7 @@ pub async fn run(case: &Value) -> Value {
     match op {
         "compact" => compact_case(case).await,
         "integrity" => integrity_case(case).await,
+        "dblog_script" => dblog_script(case).await,
         "wire_roundtrip" => wire_roundtrip_case(case).await,
         "server_devices" => server_devices_case(case).await,
         "access_control" => access_control(case),
@@ -995,7 +1087,15 @@ pub async fn run(case: &Value) -> Value {
                 let (okv, matched) = p.verify_leaves(&a);
                 vl.push(json!({"index":i,"verified":okv,"matched":matched.len()}));
             }
-            json!({"outcome":"ok","compare":cmp,"verify_leaves":vl})
+            let mut single = vec![];
+            for i in 0..b.len() {
+                let p = tb.proof(&[i]).unwrap();
+                single.push(match ta.compare(&p) {
+                    Ok(c) => comparison_json(&c),
+                    Err(e) => json!({"kind":"Err","detail":e.to_string()}),
+                });
+            }
+            json!({"outcome":"ok","compare":cmp,"verify_leaves":vl,"compare_single":single})
         }
         "decode" => {
             let ty = case.get("ty").and_then(|v| v.as_str()).unwrap_or("");
